@@ -421,3 +421,86 @@ func init() {
 			}
 		}})
 }
+
+func init() {
+	register(&Rule{ID: "O3.record", Min: 1, Text: "a client's recorded generation only moves by attaching: every implementation of Database.UpdateClientInfoAfterPushPull writes the Epoch of the client's document entry from the client record it was handed (ClientDocInfo.Epoch, set by ClientInfo.AttachDocument at attach time), never from the document row — a stale client whose push-only sync skipped the epoch comparison must stay stale, or its next ordinary sync passes both epoch guards and its old-generation changes enter the new log",
+		Run: func(x *Ctx) {
+			cdEpoch := x.P.Field(dbPkg + ".ClientDocInfo.Epoch")
+			dbI := x.P.Named(dbPkg + ".Database")
+			diT := x.P.Named(dbPkg + ".DocInfo")
+			if cdEpoch == nil || dbI == nil || diT == nil {
+				x.C.Unresolved(x.id(), "ClientDocInfo.Epoch / database.Database")
+				return
+			}
+			n := 0
+			for _, t := range x.P.Implementers(dbI) {
+				fn := x.P.MethodOf(t, "UpdateClientInfoAfterPushPull")
+				if fn == nil {
+					continue
+				}
+				var docParam *ssa.Parameter
+				for _, pm := range fn.Params {
+					if pt, ok := pm.Type().(*types.Pointer); ok && isNamed(pt.Elem(), diT) {
+						docParam = pm
+					}
+				}
+				back := t.Obj().Pkg().Name() + "." + t.Obj().Name()
+				i := 0
+				check := func(val ssa.Value, pos string) {
+					i++
+					n++
+					fromDoc := docParam != nil && prog.DependsOn(val, func(w ssa.Value) bool {
+						return prog.LoadedField(w) != nil && prog.LoadedField(w).Name() == "Epoch" && prog.Reaches(prog.FieldBase(w), func(u ssa.Value) bool { return u == ssa.Value(docParam) })
+					})
+					fromRec := prog.DependsOn(val, func(w ssa.Value) bool { return prog.LoadedField(w) == cdEpoch })
+					x.check(fromRec && !fromDoc, fmt.Sprintf("backend=%s stored-epoch#%d from-the-client-record", back, i), pos, "the stored epoch is the client record's", "the epoch stored for the client's document entry is taken from the document row (or from elsewhere) instead of the client record: a stale client is silently promoted to the current generation")
+				}
+				for _, st := range storesTo(fn, cdEpoch) {
+					check(st.Val, x.pos(st))
+				}
+				// bson form: a map entry whose key ends in ".epoch" or is "epoch"
+				for _, b := range fn.Blocks {
+					for _, ins := range b.Instrs {
+						if mu, ok := ins.(*ssa.MapUpdate); ok {
+							if k, isS := constString(mu.Key); isS && (k == "epoch" || strings.HasSuffix(k, ".epoch")) {
+								check(mu.Value, x.pos(mu))
+							}
+						}
+					}
+				}
+			}
+			if n < 1 {
+				x.C.Vacuous(x.id()+" epoch stores", n, 1)
+			}
+		}})
+
+	register(&Rule{ID: "CMP.force", Min: 3, Text: "only an explicit request forces a compaction: at every call site of packs.Compact and documents.CompactDocument the force argument is the constant false, a parameter handed through, or the Force field of a request message — never the constant true: the attachment check that force skips is made under the exclusive document lock and is the only thing that stops housekeeping from compacting a document a client attached after the candidates were listed",
+		Run: func(x *Ctx) {
+			n := 0
+			for _, spec := range []string{"server/packs.Compact", "server/documents.CompactDocument"} {
+				obj := x.P.FnObj(spec)
+				if obj == nil {
+					x.C.Unresolved(x.id(), spec)
+					continue
+				}
+				cnt := map[string]int{}
+				for _, c := range x.directCallers(obj) {
+					if c.Parent().Pkg == nil || !prog.IsProd(c.Parent().Pkg.Pkg.Path()) {
+						continue
+					}
+					args := c.Common().Args
+					force := args[len(args)-1]
+					n++
+					cnt[prog.FnName(c.Parent())]++
+					ok := true
+					if k, isK := force.(*ssa.Const); isK && k.Value != nil && k.Value.ExactString() == "true" {
+						ok = false
+					}
+					x.check(ok, fmt.Sprintf("caller=%s of=%s#%d force-not-hard-wired", prog.FnName(c.Parent()), obj.Name(), cnt[prog.FnName(c.Parent())]), x.pos(c), "force is false, a parameter or a request field", "the compaction is forced unconditionally by this caller: the attachment check under the exclusive document lock is skipped, and a document that a client attached meanwhile is compacted under it")
+				}
+			}
+			if n < 3 {
+				x.C.Vacuous(x.id()+" call sites", n, 3)
+			}
+		}})
+}
